@@ -126,16 +126,24 @@ fn inline_table_keyvals(
 }
 
 fn keyval(input: &mut Input<'_>) -> ModalResult<(Vec<Key>, (Key, Item))> {
-    (
-        key,
-        cut_err((
-            one_of(KEYVAL_SEP)
-                .context(StrContext::Expected(StrContextValue::CharLiteral('.')))
-                .context(StrContext::Expected(StrContextValue::CharLiteral('='))),
-            (ws.span(), value, ws.span()),
-        )),
-    )
-        .map(|(key, (_, v))| {
+    let key = key.parse_next(input)?;
+    // The value sits inside one table per dotted-key segment; count them towards the recursion
+    // limit so that nesting depth adds up rather than multiplying with the inline tables
+    let dotted_levels = key.len().saturating_sub(1);
+    input
+        .state
+        .enter_by(dotted_levels)
+        .map_err(|err| winnow::error::ErrMode::from_external_error(input, err).cut())?;
+    let rest = cut_err((
+        one_of(KEYVAL_SEP)
+            .context(StrContext::Expected(StrContextValue::CharLiteral('.')))
+            .context(StrContext::Expected(StrContextValue::CharLiteral('='))),
+        (ws.span(), value, ws.span()),
+    ))
+    .parse_next(input);
+    input.state.exit_by(dotted_levels);
+    rest.map(|(_, v)| (key, v))
+        .map(|(key, v)| {
             let mut path = key;
             let key = path.pop().expect("grammar ensures at least 1");
 
@@ -145,7 +153,6 @@ fn keyval(input: &mut Input<'_>) -> ModalResult<(Vec<Key>, (Key, Item))> {
             let v = v.decorated(pre, suf);
             (path, (key, Item::Value(v)))
         })
-        .parse_next(input)
 }
 
 #[cfg(test)]
